@@ -223,7 +223,8 @@ def _r2_rebuild(chk, repo):
     for mod, cls, fname, pair in (("cuqi/experimental/mcmc/_rto.py", "LinearRTO", "_precompute", ("self.M", "self.b_tild")),
                                   ("cuqi/experimental/mcmc/_laplace_approximation.py", "UGLA", "_precompute", ("self.M", "self._b_tild"))):
         ci = repo.cls(f"{mod}:{cls}")
-        fn = repo.method(ci, fname)[1]
+        from .common import canon_fn
+        fn = canon_fn(repo, ci, repo.method(ci, fname)[1], 2)          # private helpers (a shared "update the approximation" step) inlined
         g = CFG(fn)
         problems = []
         for attr in pair:
@@ -563,7 +564,18 @@ def _r3(chk, repo):
     for spec, fname, bt, ctor, state in specs:
         ctor = kwpat(ctor)
         ci = repo.cls(spec)
-        fn = _sp(kcs.visit(_clone(repo.method(ci, fname)[1])))
+        # as written; and with the private helpers of the class inlined and the locals that merely name an attribute read through
+        from .common import best_of, canon_keep
+        src_fn = repo.method(ci, fname)[1]
+        best_of(chk, [src_fn, canon_keep(repo, ci, src_fn, keep=set(), subst="attr")],
+                lambda t_, v_: _r3_on(t_, repo, ci, fname, v_, bt, ctor, state, kcs))
+
+
+def _r3_on(chk, repo, ci, fname, view, bt, ctor, state, kcs):
+    from ..pattern import statements, unify
+    from ..canon import clone as _clone, set_parents as _sp
+    if True:
+        fn = _sp(kcs.visit(_clone(view)))
         fn._rel = ci.module.rel
         region = fn
         loops = [s_ for s_ in fn.body if isinstance(s_, ast.For)]
